@@ -498,7 +498,7 @@ func (h *hist) churnStep(repo string) {
 func runHistory(r *vh.Run, focus string, i int) {
 	rng := r.Rand(i)
 	kind := []vh.StoreKind{vh.Mem, vh.Dir}[i%2]
-	uo := vh.UOpts{Algs: i%5 == 0, Docker: (i/2)%2 == 0, BareMT: i%4 == 1, Tag: fmt.Sprint(i)}
+	uo := vh.UOpts{Algs: i%5 == 0, Docker: (i/2)%2 == 0, BareMT: i%4 == 1, ChildName: (i/3)%3 == 1, Tag: fmt.Sprint(i)}
 	if focus == "C03" {
 		uo.Tags = grammarTags(rng)
 	} else {
